@@ -205,6 +205,20 @@ func doOp(ctx context.Context, st state.State, op string, act *actor) {
 			ignore(err)
 			act.blocked[id] = false
 		})
+	case "createon": // an input that is selected by the controller's list options
+		a := NewA(id, 1)
+		a.Metadata().Labels().Set("on", "1")
+		ignore(st.Create(ctx, a))
+	case "off", "on": // flip the selecting label
+		_, err := st.UpdateWithConflicts(ctx, aPtr(id), func(r resource.Resource) error {
+			if f[0] == "on" {
+				r.Metadata().Labels().Set("on", "1")
+			} else {
+				r.Metadata().Labels().Delete("on")
+			}
+			return nil
+		}, state.WithExpectedPhaseAny())
+		ignore(err)
 	case "settle": // a slow actor: it waits until the system has gone quiet before its next step
 		vrt.WaitQuiescent()
 	case "mkc": // the actor creates a second dependant of the input (kind C)
@@ -269,6 +283,15 @@ func register(rt *runtime.Runtime, c Cfg, invocations *int) error {
 		return nil
 	}
 	switch c.Flavour {
+	case "transform-listopts":
+		// only inputs labelled on=1 are mapped (transform.WithInputListOptions)
+		return rt.RegisterController(transform.NewController(transform.Settings[*A, *B]{
+			Name:            ctrlName,
+			MapMetadataFunc: func(in *A) *B { return NewB("out-" + in.Metadata().ID()) },
+			TransformFunc: func(_ context.Context, _ controller.Reader, _ *zap.Logger, in *A, out *B) error {
+				return xform(in, out)
+			},
+		}, transform.WithInputListOptions(state.WithLabelQuery(resource.LabelEqual("on", "1")))))
 	case "transform-extra":
 		return rt.RegisterController(transform.NewController(transform.Settings[*A, *B]{
 			Name:            ctrlName,
@@ -471,6 +494,11 @@ func checkConvergence(c Cfg, x *explore.X, final map[string]resource.Resource, a
 				if f != ctrlName && f != "allowed" {
 					running = true // teardown is ignored until only allowed finalizers remain
 				}
+			}
+		}
+		if running && c.Flavour == "transform-listopts" {
+			if v, _ := in.Metadata().Labels().Get("on"); v != "1" {
+				running = false // not selected by the controller's list options: not a mapped input
 			}
 		}
 		if running {
@@ -693,6 +721,11 @@ func Build(prop, tier string) []explore.Scenario {
 	} {
 		cfgs = append(cfgs, Cfg{Name: "cleanup-combined/" + n, Flavour: "cleanup-combined", Script: sc2, Bounds: []int{0}})
 	}
+	// inputs selected by list options: an input that stops (or starts) matching is an input that goes (or comes)
+	cfgs = append(cfgs,
+		Cfg{Name: "transform-listopts/on-off", Flavour: "transform-listopts", Script: []string{"createon a", "create b", "off a"}, Bounds: b},
+		Cfg{Name: "transform-listopts/off-on-update", Flavour: "transform-listopts", Script: []string{"create a", "on a", "update a", "off a", "on a"}, Bounds: b},
+	)
 	// secondary inputs: an extra input of a transform controller, a mapped input of a queue transform
 	// (also with two workers): the output follows both inputs
 	for _, fl := range []string{"transform-extra", "qtransform-mapped", "qtransform-conc2"} {
